@@ -9,28 +9,40 @@ from harness.extract import session as x_session
 from harness.rigs import session as rig
 
 MANIFEST = {
-    "text": "Lean 4 proof, for every state of two or more connected nodes and every sequence of add-user, disable-user, enable-user, "
-            "change-password, local/remote login, the direct user-session-manager login/logout requests, local/remote terminal commands "
-            "carrying any node request (nested to any depth), logoff, service verbs, node power requests and ticks, about an executable model of "
-            "UserManager / UserSessionManager / Terminal: a session appears only through a login with the current password of an existing, "
-            "enabled account on a powered-on node with running managers and (remote) under the session limit, and every such attempt on an "
-            "open path succeeds; a command changes the target only through a connection whose id is a live remote session of the target "
-            "(or valid local credentials); session ids are fresh, an ended id is never valid again and commands on it change nothing; "
-            "time-out is exact; a password change ends every session of the user; an enabled admin always remains; the session limit is "
+    "text": "Lean 4 proof, for every state of two or more connected nodes — including every set of blocked directions between them — and "
+            "every sequence of add-user (request and config API), disable-user, enable-user, change-password, local/remote login, the "
+            "direct user-session-manager login/logout requests, local/remote terminal commands carrying any node request (nested to any "
+            "depth), logoff, service verbs, node power requests, ticks and ACL edits that block / open one direction of a path, about an "
+            "executable model of UserManager / UserSessionManager / Terminal: a session appears only through a login with the current "
+            "password of an existing, enabled account on a powered-on node with running managers and (remote) under the session limit, and "
+            "every such attempt succeeds iff both directions of the path are open; when only the reply is dropped the target lists a "
+            "session (it counts against the limit) that nobody can ever run a command on (orphan invariant over all sequences); a command "
+            "changes the target only through a connection whose id is a live remote session of the target (or valid local credentials), "
+            "at EVERY hop of a nested command (closed form); `success` is answered only for an executed command whose answer travelled "
+            "back; session ids are fresh, an ended id is never valid again and commands on it change nothing; time-out is exact for each "
+            "kind of session with ITS OWN parameter, in every reachable state no listed session is past its time-out and only an accepted "
+            "command moves the clock of exactly the session it travels on (a local session's clock never moves); a password change ends "
+            "every session of the user; an enabled admin always remains, whichever of the five account editors is used, accounts are never "
+            "removed / renamed / demoted / overwritten, and any configured user list starts with an enabled admin; the session limit is "
             "never exceeded and a login succeeds again once a session ended; in reachable states a session id has one client connection "
-            "and after a client logoff no node but the target holds it; the disconnect recursion never exhausts its fuel. Tie: constants, comparison operators and guard shapes "
-            "regenerated from base.py / terminal.py / service.py (Gen/Session.lean, obligations C16_gen_*) + differential rig R-sess "
-            "(2-3 real Computers on a Switch) comparing every answer and the whole session state after every operation, plus the "
-            "property's own oracle on the implementation.",
-    "note": "C16-specific: frame transport is abstracted to 'both NICs enabled and the receiver's terminal RUNNING' (one switch, no ACL); "
+            "and after a client logoff no node but the target holds it; the disconnect recursion never exhausts its fuel. Tie: constants, "
+            "comparison operators, guard shapes, the time-out decisions per session kind, every write to last_active_step and every "
+            "account-editing statement / caller / request in the package regenerated from the source (Gen/Session.lean, obligations "
+            "C16_gen_*), the requests really registered on a built node, + differential rig R-sess (2-3 real Computers on a Switch or "
+            "behind a Router whose ACL blocks single directions) comparing every answer and the whole session state after every "
+            "operation, plus the property's own oracle on the implementation.",
+    "note": "C16-specific: whatever lies between two hosts is abstracted to per-direction reachability flags (Net.blocked, driven by DENY "
+            "rules for the address pair / tcp 22 on a real router in the rig; ARP-level blocks and router power are not driven) plus 'both NICs "
+            "enabled and the receiver's terminal RUNNING'; on the routed topology a host reaches itself through its gateway (Net.hairpin); "
             "a terminal command carries any node request (file creation with a fresh name, user-manager requests, service / power "
             "requests, the direct user-session-manager requests, and terminal requests towards a further node, nested to any depth); "
             "shut_down/start_up durations 0..2.",
-    "technique": "Lean 4 theorems (invariants by induction over operation sequences) over an executable session model; model tied by "
-                 "regenerated constants/guards and a differential rig on real nodes",
+    "technique": "Lean 4 theorems (invariants by induction over operation sequences and over nested commands) over an executable session "
+                 "model; model tied by regenerated constants/guards/inventories and a differential rig on real nodes",
     "design_ref": "5/C16",
 }
-MODULES = ["PrimaiteModel.Props.C16", "PrimaiteModel.Props.C16Conn"]
+MODULES = ["PrimaiteModel.Props.C16", "PrimaiteModel.Props.C16Conn", "PrimaiteModel.Props.C16Transport",
+           "PrimaiteModel.Props.C16Timeout", "PrimaiteModel.Props.C16Admin"]
 EXE = "drv_c16"
 
 
@@ -77,6 +89,34 @@ def replay(rec: dict) -> bool:
     return _fails(rec["replay"]["case"]) is None
 
 
+SERVICE_BASE = {"stop", "start", "pause", "resume", "restart", "disable", "enable", "scan", "fix", "compromise"}
+EXPECTED_REQUESTS = {
+    "user-manager": {"add_user", "disable_user", "change_password"},
+    "user-session-manager": {"remote_login", "remote_logout"},
+    "terminal": {"node_session_remote_login", "remote_logoff", "send_remote_command", "send_local_command"},
+}
+
+
+def _runtime_inventory(ctx: Ctx):
+    """The requests the three services really register on a built node (beyond the common service verbs) are the operations of the
+    model; `logon` / `logoff` of the node are stubs that answer failure and change nothing; the account-editing methods of the
+    UserManager object are the four the model has operations for."""
+    im = rig.Impl({"n": 2, "su": 1, "sd": 1, "rd": 1, "max": 2, "lto": 2, "rto": 3})
+    c = im.nodes[0]
+    for svc, want in EXPECTED_REQUESTS.items():
+        have = set(c.software_manager.software[svc]._request_manager.request_types) - SERVICE_BASE
+        ctx.oblige(f"inventory:requests of {svc} = operations of the model", "correspondence", have == want,
+                   f"registered beyond the service verbs: {sorted(have)}; modelled: {sorted(want)}")
+    before = rig.render("x", im.snap())
+    stubs = [im._req(0, ["logon"]), im._req(0, ["logoff"])]
+    ctx.oblige("inventory:node logon/logoff are stubs (answer failure, change nothing)", "correspondence",
+               stubs == ["failure", "failure"] and rig.render("x", im.snap()) == before, f"answers {stubs}")
+    editors = sorted(m for m in dir(type(c.user_manager)) if "user" in m and not m.startswith("_")
+                     and callable(getattr(type(c.user_manager), m, None)))
+    ctx.oblige("inventory:public account methods of UserManager", "correspondence",
+               editors == ["add_user", "authenticate_user", "change_user_password", "disable_user", "enable_user"], str(editors))
+
+
 def run(ctx: Ctx):
     with lean_lock():
         ctx.extract(x_session.GEN_NAME, x_session.emit)
@@ -85,6 +125,7 @@ def run(ctx: Ctx):
                        "session state (power, NIC, service states, users, local session, remote sessions, terminal connections, files) "
                        "is compared after every operation; non-trivial = at least one remote session was opened and at least one "
                        "operation was refused; distinct by canonical JSON")
+    _runtime_inventory(ctx)
     cases: List[Tuple[str, dict]] = []
     for f in sorted((VERIF / "corpus" / "C16").glob("*.json")):
         cases.append(("corpus:" + f.name, json.loads(f.read_text())["case"]))
@@ -102,12 +143,26 @@ def run(ctx: Ctx):
     for k, c in enumerate(rig.exhaustive_cases(base_cfg, [login], ctx.scale(3, 4), core)):
         cases.append((f"exhcore:{k}", c))
     # the last-administrator rule: two administrator accounts, every way of disabling / enabling them
-    for k, c in enumerate(rig.exhaustive_cases(base_cfg, rig.ADMIN_PREFIX, ctx.scale(3, 4), rig.admin_alphabet())):
+    # (all eleven instances at depth 3; thorough: additionally the eight disable / enable / add instances at depth 4)
+    for k, c in enumerate(rig.exhaustive_cases(base_cfg, rig.ADMIN_PREFIX, 3, rig.admin_alphabet())):
         cases.append((f"exhadmin:{k}", c))
+    if ctx.thorough:
+        for k, c in enumerate(rig.exhaustive_cases(base_cfg, rig.ADMIN_PREFIX, 4, rig.admin_alphabet()[:8])):
+            cases.append((f"exhadmin4:{k}", c))
     # direct session-manager requests and nested commands on three nodes
     cfg3 = dict(base_cfg, n=3)
     for k, c in enumerate(rig.exhaustive_cases(cfg3, [], ctx.scale(2, 3), rig.session_alphabet())):
         cases.append((f"exhsess:{k}", c))
+    # transport: routed topology (every host behind its own router port), both directions of the 0 <-> 1 path blocked / opened
+    cfgr = dict(base_cfg, topo="routed", max=2)
+    for pi, prefix in enumerate([[], [login]]):
+        # (after the login prefix the quick tier leaves out the last two instances of the alphabet: 8^3 instead of 10^3)
+        alpha_r = rig.route_alphabet() if (pi == 0 or ctx.thorough) else rig.route_alphabet()[:8]
+        for k, c in enumerate(rig.exhaustive_cases(cfgr, prefix, ctx.scale(3, 4 - pi), alpha_r)):
+            cases.append((f"exhroute:{pi}:{k}", c))
+    # the session core of the first family once more on the routed topology (nothing blocked: must behave like the switch)
+    for k, c in enumerate(rig.exhaustive_cases(dict(base_cfg, topo="routed"), [login], ctx.scale(2, 3), core)):
+        cases.append((f"exhcore-routed:{k}", c))
     rng = ctx.rng.fork("sess")
     for k in range(ctx.scale(500, 6000)):
         cases.append((f"gen:{k}", rig.gen_case(rng, max_ops=ctx.scale(30, 60))))
@@ -136,6 +191,9 @@ def run(ctx: Ctx):
         refused = any(a != "success" for a in answers)
         ctx.case(case, opened and refused)
         ctx.count("family:" + name.split(":")[0])
+        ctx.count("topology:" + case["cfg"].get("topo", "switch"))
+        if any(sn.get("blk") for sn in snaps):
+            ctx.count("traces-with-a-blocked-direction")
         for q, a in zip(lines[2:], answers):
             opn = _opname(q)
             ctx.count("op:" + opn)
@@ -178,3 +236,4 @@ def run(ctx: Ctx):
     ctx.oblige("oracle:C16 holds on the implementation on every trace", "oracle", oracle_ok == len(cases),
                f"{len(cases) - oracle_ok} of {len(cases)} traces fail the property's oracle")
     ctx.oblige("model never ran out of fuel", "correspondence", ctx.hist.get("model-out-of-fuel", 0) == 0)
+    ctx.count("half-open-logins(session on the target, client told failure)", rig.HALF_OPEN["n"])
